@@ -197,3 +197,84 @@ func VerifGetTable(req VerifTableReq) (rows []VerifOutRow, hasMore bool, err err
 	}
 	return rows, hasMore, nil
 }
+
+// ---------------------------------------------------------------------------------------------------------
+// VerifHandleGetTable runs the REAL requestHandler.handleGetTable (GetLODs, the LOD reordering for fromEnd,
+// getTableFromLODs, cacheGet -> cache2 -> loader) with a stub storage loader: one row (no tags, count 1) at every
+// slot of a LOD that contains one of rowTimes. Returns the times of the table rows, the has-more flag and the LODs
+// in the order the loader was first asked for them.
+type VerifLODVisit struct{ From, To, Step int64 }
+
+func VerifHandleGetTable(fromSec, toSec int64, fromEnd bool, limit int, rowTimes []int64, fromRow, toRow RowMarker) (times []int64, more bool, visits []VerifLODVisit, err error) {
+	h := &Handler{HandlerOptions: HandlerOptions{location: time.UTC}}
+	seen := map[int64]bool{}
+	h.cache2 = newCache2(h, 0, func(ctx context.Context, _ *requestHandler, q *queryBuilder, lod data_model.LOD, ret [][]tsSelectRow, retStartIx int) (int, error) {
+		n := 0
+		for _, t := range rowTimes {
+			if t < lod.FromSec || lod.ToSec <= t {
+				continue
+			}
+			ix, err := lod.IndexOf(t)
+			if err != nil {
+				return 0, err
+			}
+			var row tsSelectRow
+			row.time = lod.FromSec + int64(ix)*lod.StepSec
+			row.count = 1
+			if len(ret[retStartIx+ix]) == 0 {
+				ret[retStartIx+ix] = append(ret[retStartIx+ix], row)
+				n++
+			}
+		}
+		return n, nil
+	})
+	defer h.cache2.shutdown()
+	rh := &requestHandler{Handler: h, accessInfo: accessInfo{user: "verif"}}
+	rh.endpointStat.timings.Timings = map[string][]time.Duration{}
+	req := seriesRequest{
+		numResults: limit,
+		metricName: format.BuiltinMetricMetaAggBucketReceiveDelaySec.Name,
+		from:       time.Unix(fromSec, 0),
+		to:         time.Unix(toSec, 0),
+		what:       []promql.SelectorWhat{{Digest: promql.DigestCountRaw}},
+		fromEnd:    fromEnd,
+		fromRow:    fromRow,
+		toRow:      toRow,
+	}
+	// record the order in which getTableFromLODs asks for the LODs: wrap through the request handler's trace of
+	// loader calls is not available, so observe it through the loader itself (first call per LOD step/from)
+	inner := h.cache2.loader
+	h.cache2.loader = func(ctx context.Context, r *requestHandler, q *queryBuilder, lod data_model.LOD, ret [][]tsSelectRow, retStartIx int) (int, error) {
+		if !seen[lod.StepSec] {
+			seen[lod.StepSec] = true
+			visits = append(visits, VerifLODVisit{From: lod.FromSec, To: lod.ToSec, Step: lod.StepSec})
+		}
+		return inner(ctx, r, q, lod, ret, retStartIx)
+	}
+	resp, _, err := rh.handleGetTable(context.Background(), req)
+	if err != nil {
+		return nil, false, visits, err
+	}
+	for i := range resp.Rows {
+		times = append(times, resp.Rows[i].Time)
+	}
+	return times, resp.More, visits, nil
+}
+
+// VerifTableSQL returns the text the real buildSeriesQuery generates for a table query (sort = req.tableSort()).
+func VerifTableSQL(by []int, fromEnd bool) (string, error) {
+	req := seriesRequest{fromEnd: fromEnd}
+	pq := queryBuilder{
+		metric: &format.MetricMetaValue{MetricID: 1000},
+		user:   "verif",
+		what:   tsWhat{data_model.DigestSelector{What: data_model.DigestCount}},
+		by:     by,
+		sort:   req.tableSort(),
+	}
+	lod := data_model.LOD{FromSec: 3600, ToSec: 7200, StepSec: 60, Version: Version6, Location: time.UTC}
+	q, err := pq.buildSeriesQuery(lod, "")
+	if err != nil {
+		return "", err
+	}
+	return q.body, nil
+}
